@@ -34,6 +34,7 @@ type fnode struct {
 	mode     int
 	spins    int
 	rank     int
+	honour   bool
 	children []*fnode
 	conn     *cnode
 	id       int
@@ -70,7 +71,7 @@ func (b *builder) add(it *itemT) int {
 }
 
 func plainItem(n *fnode, parent int) *itemT {
-	it := &itemT{kind: n.kind, bkey: n.bkey, parent: parent, ok: n.outcome != 1, mode: n.mode, spins: n.spins, rank: n.rank}
+	it := &itemT{kind: n.kind, bkey: n.bkey, parent: parent, ok: n.outcome != 1, mode: n.mode, spins: n.spins, rank: n.rank, honour: n.honour}
 	return it
 }
 
@@ -281,8 +282,12 @@ func writeQuery(sb *strings.Builder, nodes []*fnode) {
 var api *apifu.API
 
 func serve(r *run, query string) string {
+	return serveCtx(context.WithValue(context.Background(), runKey, r), query)
+}
+
+func serveCtx(ctx context.Context, query string) string {
 	w := httptest.NewRecorder()
-	req, _ := http.NewRequestWithContext(context.WithValue(context.Background(), runKey, r), "POST", "/", strings.NewReader(query))
+	req, _ := http.NewRequestWithContext(ctx, "POST", "/", strings.NewReader(query))
 	req.Header.Set("Content-Type", "application/graphql")
 	api.ServeGraphQL(w, req)
 	return canonical(w.Body.Bytes())
@@ -379,6 +384,10 @@ var hangs int
 const maxHangs = 3
 
 func runCase(roots []*fnode, gmp int, batchSpins [nBatch]int) sexp.Node {
+	return runCaseCancel(roots, gmp, batchSpins, cNone, 0)
+}
+
+func runCaseCancel(roots []*fnode, gmp int, batchSpins [nBatch]int, cancelKind, cancelN int) sexp.Node {
 	if hangs >= maxHangs {
 		return sexp.T("case", sexp.T("gmp", sexp.Int(0)), sexp.T("query", sexp.Str("not run: earlier requests hung")),
 			sexp.T("items", sexp.L()), sexp.T("trace", sexp.L(sexp.T("end"))), sexp.T("delivered", sexp.L()),
@@ -402,8 +411,15 @@ func runCase(roots []*fnode, gmp int, batchSpins [nBatch]int) sexp.Node {
 	pre := gset()
 	r := newRun(b.items, b.conns)
 	r.batchSpins = batchSpins
+	r.cancelKind, r.cancelN = cancelKind, cancelN
+	ctx, cancel := context.WithCancel(context.WithValue(context.Background(), runKey, r))
+	defer cancel()
+	r.cancelFn = cancel
+	if cancelKind == cBefore {
+		r.doCancel()
+	}
 	respCh := make(chan string, 1)
-	go func() { respCh <- serve(r, query) }()
+	go func() { respCh <- serveCtx(ctx, query) }()
 	var asyncResp string
 	hang := false
 	select {
@@ -421,6 +437,12 @@ func runCase(roots []*fnode, gmp int, batchSpins [nBatch]int) sexp.Node {
 	defer r.mu.Unlock()
 	items := make([]sexp.Node, len(b.items))
 	for i, it := range b.items {
+		if r.ctxErr[it.id] { // what this Go function produced is the context's error
+			c := *it
+			c.ok, c.val = false, ctxErrCode
+			items[i] = itemNode(&c)
+			continue
+		}
 		items[i] = itemNode(it)
 	}
 	tr := make([]sexp.Node, len(r.trace))
@@ -433,6 +455,8 @@ func runCase(roots []*fnode, gmp int, batchSpins [nBatch]int) sexp.Node {
 	}
 	return sexp.T("case",
 		sexp.T("gmp", sexp.Int(gmp)),
+		sexp.T("cancelkind", sexp.Int(cancelKind)),
+		sexp.T("cancelled", sexp.Bool(r.cancelled)),
 		sexp.T("query", sexp.Str(query)),
 		sexp.T("items", sexp.L(items...)),
 		sexp.T("trace", sexp.L(tr...)),
@@ -690,6 +714,38 @@ func main() {
 					}
 				}
 			}
+		}
+		// 6. the request context is cancelled at a generated point; half of the Go functions look at
+		// the context (wait for it as well as for their release, return its error once cancelled)
+		n = 800
+		if h.Thorough() {
+			n = 16000
+		}
+		for i := 0; i < n; i++ {
+			gmp := gmps[i%len(gmps)]
+			h.Case(func(r *rng.R) sexp.Node {
+				budget := r.Range(2, 10)
+				roots := genTree(r, &budget, 0)
+				var setHonour func(ns []*fnode)
+				setHonour = func(ns []*fnode) {
+					for _, x := range ns {
+						if x.kind == kGo {
+							x.honour = r.Bool()
+						}
+						setHonour(x.children)
+						if x.conn != nil {
+							setHonour(x.conn.tmpl)
+						}
+					}
+				}
+				setHonour(roots)
+				var bs [nBatch]int
+				for k := range bs {
+					bs[k] = r.Intn(4)
+				}
+				kind := rng.Pick(r, []int{cBefore, cIdleEntry, cIdleEntry, cEarly, cEarly, cIdleExit, cIdleExit, cMidLate, cMidLate, cMidLate})
+				return runCaseCancel(roots, gmp, bs, kind, r.Intn(3))
+			})
 		}
 	})
 }
